@@ -33,14 +33,14 @@ package html
 //@   loop#1 invariant forall i int :: {r[i]} 0 <= i && i <= rangeindex ==> r[i] == cells[i].str
 //@   loop#1 decreases len(cells) - rangeindex
 
-//@ -- getFuncs builds closures over ht (function values are outside the verified subset): ASSUMED to return a
-//@ -- fresh function map, numbered by the ghost counter funcsGen
+//@ -- getFuncs builds the function map of closures over ht; the ghost counter funcsGen numbers the maps built
 //@ func (*HTMLTable).getFuncs
-//@   trusted
-//@   tags C14
+//@   tags C14,C09
 //@   requires ht != nil
 //@   assigns ghost funcsGen, ghost funcsId
 //@   ensures funcsGen == old(funcsGen) + 1 && funcsId === store(old(funcsId), result, funcsGen)
+//@   exit ghost funcsGen = funcsGen + 1
+//@   exit ghost funcsId = store(funcsId, result, funcsGen)
 
 //@ func (*HTMLTable).RenderTo
 //@   tags C09,C14,C15,C16
